@@ -31,13 +31,17 @@ structure MSt where
   varying : List (Nat × Bool) := []    -- VaryingInformers: namespace ↦ enabled flag of its informers
   ea : EaPc := .start
   inflight : List Nat := []            -- namespace callbacks between `Store` and the flag read
+  cancel : List Nat := []              -- keys of `cancelForNs` (filled by Start() and by the add callback)
+  live : List Nat := []                -- GHOST (not in the code): matching namespaces that exist in the
+                                       -- cluster according to the namespace informer's Added/Deleted events
   deriving Repr
 
 inductive MAct
   | ea                      -- next step of EnableKubeEventCb
   | visitExtra (ns : Nat)   -- the range also visits a key stored while it is running
   | nsStore (ns : Nat)      -- namespace callback: CreateInformersForNamespace + VaryingInformers.Store
-  | nsRead (ns : Nat)       -- namespace callback: `if m.eventsEnabled { enable }`, start
+  | nsRead (ns : Nat)       -- namespace callback: `cancelForNs.Store`, `if m.eventsEnabled { enable }`, start
+  | nsDel (ns : Nat)        -- namespace DELETE callback (namespace deleted, or it stopped matching)
   deriving DecidableEq, Repr
 
 def enableNs (v : List (Nat × Bool)) (ns : Nat) : List (Nat × Bool) :=
@@ -59,13 +63,24 @@ def step (fx : Bool) (s : MSt) : MAct → Option MSt
     | .ranging _ => some { s with varying := enableNs s.varying ns }
     | _ => none
   | .nsStore ns =>
-    if s.varying.any (·.1 == ns) then none        -- "ignore already started informers"
-    else some { s with varying := s.varying ++ [(ns, false)], inflight := s.inflight ++ [ns] }
+    -- "ignore already started informers": the callback returns, nothing changes in the code's state
+    if s.varying.any (·.1 == ns) then some { s with live := ns :: s.live }
+    else some { s with varying := s.varying ++ [(ns, false)], inflight := s.inflight ++ [ns],
+                       live := ns :: s.live }
   | .nsRead ns =>
     if s.inflight.contains ns then
-      some { s with inflight := s.inflight.erase ns,
+      some { s with inflight := s.inflight.erase ns, cancel := s.cancel ++ [ns],
                     varying := if s.flag then enableNs s.varying ns else s.varying }
     else none
+  | .nsDel ns =>
+    -- the callbacks of the namespace informer run one at a time: no add callback is in flight
+    if s.inflight ≠ [] then none
+    else if s.cancel.contains ns then
+      -- cancel the namespace's informers, `VaryingInformers.Delete`, `cancelForNs.Delete`
+      some { s with varying := s.varying.filter (fun p => p.1 != ns),
+                    cancel := s.cancel.filter (fun n => n != ns),
+                    live := s.live.filter (fun n => n != ns) }
+    else some { s with live := s.live.filter (fun n => n != ns) }   -- "ignore already stopped informers"
 
 def run (fx : Bool) (s : MSt) (sched : List MAct) : MSt :=
   sched.foldl (fun s a => (step fx s a).getD s) s
@@ -75,6 +90,19 @@ def Settled (s : MSt) : Prop := s.ea = .done ∧ s.inflight = []
 
 /-- Every informer of the monitor — static, and of every namespace seen so far — is unlocked. -/
 def AllEnabled (s : MSt) : Prop := (∀ b ∈ s.statics, b = true) ∧ (∀ p ∈ s.varying, p.2 = true)
+
+/-- Keys of `VaryingInformers`. -/
+def keys (s : MSt) : List Nat := s.varying.map (·.1)
+
+/-- The state `CreateInformers` + `Start` leave behind: informers (locked) and a cancel function for
+every matching namespace that existed at start. -/
+def initial (st : List Bool) (nss : List Nat) : MSt :=
+  { statics := st, varying := nss.map fun n => (n, false), cancel := nss, live := nss }
+
+/-- Every matching namespace that currently exists is watched by unlocked informers. -/
+def LiveWatched (s : MSt) : Prop := ∀ n ∈ s.live, ∃ p ∈ s.varying, p.1 = n ∧ p.2 = true
+
+instance (s : MSt) : Decidable (LiveWatched s) := by unfold LiveWatched; exact inferInstance
 
 instance (s : MSt) : Decidable (Settled s) := by unfold Settled; exact inferInstance
 instance (s : MSt) : Decidable (AllEnabled s) := by unfold AllEnabled; exact inferInstance
